@@ -959,6 +959,8 @@ impl DPEventLoop {
       )
       .expect("Writer heartbeat timer channel registration failed!!");
 
+    #[cfg(rustdds_verif)]
+    let timer = crate::verif::vtimer::Timer::from(timer);
     let new_writer = Writer::new(
       writer_ing,
       self.udp_sender.clone(),
